@@ -1820,7 +1820,8 @@ REGISTER = True
 LEVEL_TEXT = ("Exploration by runtime monitoring: recording icontract class invariants are attached from the harness to "
               "the real Photon/Pixel/Signal/Image/Phase classes and evaluated around every public operation while "
               "(a) thousands of generated operation sequences, (b) a deterministic grid over kind x shape class x dtype "
-              "x pre-state x operation, an equality grid, a read grid and a detector-setter grid, and (c) real model "
+              "x pre-state x operation, an equality grid, a read grid, a detector-setter grid and a refused-addition-on-empty "
+              "grid (every route to empty x unstorable operand class -> read -> compare with an empty twin), and (c) real model "
               "pipelines on even and odd detector sizes are executed on all four detector types; a numpy-only "
               "reference state machine predicts accepted/rejected and the content after each operation, equality is "
               "compared with an oracle in both directions. Thorough additionally runs the repository's "
